@@ -1,7 +1,7 @@
 #!/usr/bin/env python3
 """rs2lean.py — translate the pure sizing / hash / constant core of abyssiniandb to Lean 4.
 
-usage: rs2lean.py <repo> <outdir>      (writes <outdir>/Consts.lean and <outdir>/Funcs.lean)
+usage: rs2lean.py <repo> <outdir>      (writes <outdir>/Consts.lean, <outdir>/Funcs.lean, <outdir>/FileOps.lean)
 
 The translator accepts a small, fixed Rust subset (see DESIGN.md §3.2) and FAILS LOUDLY
 (exit 2, message with file and construct) on anything else.  Integers become `Nat`;
@@ -15,7 +15,16 @@ with `cmpBytes`, `u64`s with `compare`; `vu64::decode(..).unwrap()` is the panic
 `i64` is `Int` and only occurs in `to_le_bytes` / `from_le_bytes` (two's complement);
 `copy_from_slice` into/from a range `x[..n]` only in shapes whose length and bounds
 conditions are evident from the enclosing `if` (see `Emit.copy_from_slice`).
-When the translation fails, Funcs.lean is replaced by a file that does not build.
+Imperative I/O subset (FileOps.lean, class EmitIO): the `&mut self` methods of `VarFile` that do the
+byte-level I/O of the record-file allocator (vfile.rs, piece.rs; list `IO_FUNCS`, each looked up in
+the `impl VarFile` blocks whose `#[cfg]` holds, signature checked) become functions in the monad
+`Abyss.FileM.M` (Abyss/FileM.lean): `Result`+`?` is the monad's failure, `self.m(..)` is a translated
+function or a bottom primitive (`IO_PRIMS`), any other method call fails; the unit-of-measure
+newtypes are erased (their operators are checked against semtype.rs, `io_pin_semtype`); a `while`
+loop becomes an auxiliary function recursive on an explicit `fuel`; `return Ok(x)` is supported as
+the last statement of an `if` block (also inside a loop).
+When the translation fails, Funcs.lean (and FileOps.lean; FileOps.lean alone when only the I/O
+stage failed) is replaced by a file that does not build.
 Python 3 standard library only.
 """
 import re
@@ -90,6 +99,9 @@ class P:
         self.i = 0
         self.feats = feats
         self.where = where
+        self.keep_try = False         # imperative I/O subset: `e?` is kept as ("try", e)
+        self.dropped = []             # statements left out because their `#[cfg(..)]` is false
+        self.last_cfg = []            # texts of the cfg attributes read by the last `attrs()`
 
     def peek(self, k=0):
         return self.t[self.i + k] if self.i + k < len(self.t) else ("eof", "")
@@ -116,13 +128,17 @@ class P:
     # ---- attributes: returns False if a cfg attribute evaluates to false
     def attrs(self):
         ok = True
+        self.last_cfg = []
         while self.at("#"):
             self.next()
             self.expect("[")
             name = self.next()[1]
             if name == "cfg":
                 self.expect("(")
+                i0 = self.i
                 v = self.cfg_pred()
+                self.last_cfg.append("#[cfg(%s)]" % "".join(
+                    (" " + x[1] + " ") if x[1] == "=" else x[1] for x in self.t[i0:self.i]))
                 self.expect(")")
                 ok = ok and v
                 self.expect("]")
@@ -185,8 +201,12 @@ class P:
         tail = None
         while not self.at("}"):
             ok = self.attrs()
+            cfgs = list(self.last_cfg)
             st = self.stmt()
             if not ok:
+                what = "{ … }" if (st[0] == "expr" and st[1][0] == "block") else (
+                    "let %s = …" % " ".join(pat_vars(st[1])) if st[0] == "let" else "statement")
+                self.dropped.append("`%s %s` (cfg false)" % (" ".join(cfgs), what))
                 continue
             if st[0] == "tail":
                 if not self.at("}"):
@@ -228,7 +248,13 @@ class P:
             body = self.block()
             return ("for", pat, it, body)
         if v == "while":
-            fail(self.where + ": `while` loops are outside the supported subset")
+            # only the imperative I/O subset (EmitIO) translates it; Emit.seq rejects it
+            self.next()
+            if self.at("let"):
+                fail(self.where + ": `while let` is outside the supported subset")
+            c = self.expr(no_struct=True)
+            body = self.block()
+            return ("while", c, body)
         if v == "return":
             self.next()
             e = None if self.at(";") else self.expr()
@@ -356,6 +382,8 @@ class P:
                 e = ("index", e, idx)
             elif self.at("?"):
                 self.next()
+                if self.keep_try:
+                    e = ("try", e)
             else:
                 return e
 
@@ -449,6 +477,17 @@ class P:
             self.next()
             self.skip_group()
             return ("panicx",)
+        if k == "op" and v == "|":
+            # closure `|a, b| body` (only EmitIO translates it, as the argument of `.map`)
+            self.next()
+            ps = []
+            while not self.at("|"):
+                ps.append(self.pattern())
+                if self.at(":"):
+                    fail(self.where + ": closure parameter with a type annotation is outside the supported subset")
+                self.eat(",")
+            self.expect("|")
+            return ("closure", ps, self.expr())
         if v == "return":
             self.next()
             e = self.expr()
@@ -553,12 +592,16 @@ def find_item(src, kind, name, where):
     fail("bad kind")
 
 
-def find_impl(src, header, where):
+def find_impl(src, header, where, generics=None):
     """returns the text of the one block `impl <header> { … }` (e.g. header `From<u64> for DbU64`).
     `src` must be comment-stripped (the key-type files carry commented-out impls of the same
     shape).  The header is matched token by token, so `From<u64>` does not match `From<&u64>`
     and `for u64` does not match `for DbU64`; generic impls (`impl<…>`) are never selected."""
-    pat = r"\bimpl\s+" + r"\s*".join(re.escape(v) for _k, v in tokenize(header)) + r"\s*\{"
+    lead = r"\bimpl\s+"
+    if generics is not None:
+        # `impl<T> Header { … }`: the generic parameter list must be exactly `generics`
+        lead = r"\bimpl\s*" + r"\s*".join(re.escape(v) for _k, v in tokenize(generics)) + r"\s*"
+    pat = lead + r"\s*".join(re.escape(v) for _k, v in tokenize(header)) + r"\s*\{"
     # a word boundary is needed between adjacent identifier tokens (`for DbU64`)
     pat = re.sub(r"(?<=[A-Za-z0-9_])\\s\*(?=[A-Za-z0-9_])", r"\\s+", pat)
     ms = list(re.finditer(pat, src))
@@ -1166,6 +1209,8 @@ class Emit:
         if k == "panic":
             self.partial = True
             return "none"
+        if k == "while":
+            fail(self.where + ": `while` loops are outside the supported subset of pure functions")
         fail("%s: unsupported statement %s" % (self.where, k))
 
     def iter(self, it):
@@ -1249,7 +1294,7 @@ P.expr = _expr_with_range
 def translate_fn(repo, feats, relpath, rust_name, lean_name, params, subst, consts, partial_fns,
                  self_arrays=None, var_types=None, ret_tuple=None, pick_let=None, state_vars=None,
                  pure_fns=None, default_int=None, result=None, impl=None, expect_sig=None,
-                 force_option=False, newtypes=None):
+                 force_option=False, newtypes=None, impl_generics=None):
     """impl: look the function up inside the block `impl <impl> { … }` only.
     expect_sig: the function's signature (text between its name and its body) must be this,
     token for token — the parameter names and types of `params`/`var_types` are configuration,
@@ -1259,7 +1304,7 @@ def translate_fn(repo, feats, relpath, rust_name, lean_name, params, subst, cons
     where = "%s::%s" % (relpath, rust_name) if impl is None else "%s::<impl %s>::%s" % (relpath, impl, rust_name)
     src = strip_comments(open(os.path.join(repo, relpath)).read())
     if impl is not None:
-        src = find_impl(src, impl, where)
+        src = find_impl(src, impl, where, impl_generics)
         n = len(re.findall(r"\bfn\s+%s\b" % re.escape(rust_name), src))
         if n != 1:
             fail("%s: %d definitions of fn %s in the impl block" % (where, n, rust_name))
@@ -1379,6 +1424,1051 @@ def signature_of(repo, feats, relpath):
     if not m:
         fail(where + ": body is not a byte-string literal")
     return parse_bstr(m.group(1))
+
+
+# ----------------------------------------------------------------------------- imperative I/O subset
+# `&mut self` methods of `VarFile` (vfile.rs, piece.rs) -> functions in the monad `Abyss.FileM.M`
+# (state = flat file + cursor, failure = `Err`).  See the header comment written to FileOps.lean.
+IO_VF = "src/filedb/inner/vfile.rs"
+IO_PI = "src/filedb/inner/piece.rs"
+IO_ST = "src/filedb/inner/semtype.rs"
+
+# bottom primitives: method of `self` -> (Lean name, number of arguments, type of the value)
+IO_PRIMS = {
+    "read_u64_le": ("FileM.readU64Le", 0, "int"),
+    "write_u64_le": ("FileM.writeU64Le", 1, "unit"),
+    "read_and_decode_vu64": ("FileM.readVu64", 0, "int"),
+    "encode_and_write_vu64": ("FileM.writeVu64", 1, "unit"),
+    "stream_position": ("FileM.seekPosition", 0, "int"),
+    # `self.seek(SeekFrom::Start(x))` -> `FileM.seek x` and `self.buf_file.write_zero(n)` ->
+    # `FileM.writeZero n` are recognised by shape in EmitIO.mex
+}
+# statements `self.<m>(..)?;` that are left out, with the reason written to the doc comment
+IO_DROPPED_CALLS = {"prepare": "`self.prepare(..)?` (read-ahead hint of the buffer, no effect on the flat file)"}
+# unit-of-measure newtypes of semtype.rs: constructor path -> class; all are erased to `Nat`
+IO_NEWTYPES = {"PieceOffset": "Offset", "Offset": "Offset", "PieceSize": "Size", "KeyLength": "Length"}
+IO_SIG_TYPES = {"PieceOffset<T>": "Offset", "Offset<T>": "Offset", "PieceSize<T>": "Size", "KeyLength": "Length",
+                "u32": "int", "u64": "int", "()": "unit"}
+IO_RESERVED = ("c", "fuel", "loopFuel", "loopRes", "loopRet")
+
+
+def io_ident(v):
+    """Lean name of a Rust local: camelCase; a leading `_` (unused in release builds) is kept"""
+    if v == "_":
+        return "_"
+    return ("_" if v.startswith("_") else "") + lean_ident(v)
+
+
+def io_lean_ty(t):
+    if t in ("Offset", "Size", "Length", "int"):
+        return "Nat"
+    if t == "unit":
+        return "Unit"
+    if t == "bool":
+        return "Bool"
+    if isinstance(t, tuple) and t[0] == "tuple":
+        return " × ".join(io_lean_ty(x) if not isinstance(x, tuple) else "(" + io_lean_ty(x) + ")" for x in t[1])
+    fail("imperative I/O subset: no Lean type for %r" % (t,))
+
+
+def io_sig_type(s, where):
+    """type text of a signature (`PieceSize<T>`, `(PieceSize<T>,PieceOffset<T>)`) -> class"""
+    if s in IO_SIG_TYPES:
+        return IO_SIG_TYPES[s]
+    if s.startswith("(") and s.endswith(")"):
+        parts, depth, cur = [], 0, ""
+        for ch in s[1:-1]:
+            if ch in "<([":
+                depth += 1
+            elif ch in ">)]":
+                depth -= 1
+            if ch == "," and depth == 0:
+                parts.append(cur)
+                cur = ""
+            else:
+                cur += ch
+        if cur:
+            parts.append(cur)
+        if len(parts) >= 2:
+            return ("tuple", [io_sig_type(x, where) for x in parts])
+    fail("%s: type `%s` is outside the imperative I/O subset" % (where, s))
+
+
+def ind(lines, n=2):
+    return [" " * n + x for x in lines]
+
+
+def io_atom(s):
+    """parenthesise unless `s` is an identifier / number / already one parenthesised group"""
+    if re.match(r"^[A-Za-z0-9_.']+$", s) or s == "()":
+        return s
+    if s.startswith("("):
+        depth = 0
+        for i, ch in enumerate(s):
+            if ch == "(":
+                depth += 1
+            elif ch == ")":
+                depth -= 1
+                if depth == 0:
+                    if i == len(s) - 1:
+                        return s
+                    break
+    return "(" + s + ")"
+
+
+def io_attach(prefix, lines):
+    """`prefix` + a monadic term; a term of several lines is parenthesised (a bare `if`/`do`
+    after `←` would be read as a do-element and elaborated with join points)"""
+    if len(lines) == 1:
+        return [prefix + lines[0]]
+    out = [prefix + "(" + lines[0]] + ind(lines[1:], 2)
+    out[-1] += ")"
+    return out
+
+
+def io_walk(node):
+    """all AST nodes (tuples whose first component is a string) below `node`, including it"""
+    if isinstance(node, tuple):
+        if node and isinstance(node[0], str):
+            yield node
+        for x in node[1:] if (node and isinstance(node[0], str)) else node:
+            for y in io_walk(x):
+                yield y
+    elif isinstance(node, list):
+        for x in node:
+            for y in io_walk(x):
+                yield y
+
+
+def io_contains_return(node):
+    return any(n[0] in ("return", "returnx") for n in io_walk(node))
+
+
+def io_assigned(stmts, where):
+    """Rust names of the variables assigned in `stmts` and not declared inside (block-scoped)"""
+    out = []
+
+    def blk(sts, tail, decl):
+        decl = set(decl)
+        for st in sts:
+            k = st[0]
+            if k == "let":
+                ex(st[3], decl)
+                decl.update(pat_vars(st[1]))
+            elif k == "assign":
+                tgt = st[2]
+                if not (tgt[0] == "path" and len(tgt[1]) == 1):
+                    fail("%s: unsupported assignment target" % where)
+                v = tgt[1][0]
+                if v not in decl and v not in out:
+                    out.append(v)
+                ex(st[3], decl)
+            elif k == "expr":
+                ex(st[1], decl)
+            elif k == "while":
+                ex(st[1], decl)
+                blk(st[2][1], st[2][2], decl)
+            elif k == "return":
+                if st[1] is not None:
+                    ex(st[1], decl)
+            elif k in ("dassert", "panic"):
+                pass
+            else:
+                fail("%s: statement `%s` is outside the imperative I/O subset" % (where, k))
+        if tail is not None:
+            ex(tail, decl)
+
+    def ex(e, decl):
+        if e[0] == "block":
+            blk(e[1], e[2], decl)
+        elif e[0] == "if":
+            ex(e[1], decl)
+            blk(e[2][1], e[2][2], decl)
+            if e[3] is not None:
+                ex(e[3], decl)
+        else:
+            for x in e[1:]:
+                if isinstance(x, tuple) and x and isinstance(x[0], str):
+                    ex(x, decl)
+                elif isinstance(x, list):
+                    for y in x:
+                        if isinstance(y, tuple) and y and isinstance(y[0], str):
+                            ex(y, decl)
+
+    blk(stmts, None, set())
+    return out
+
+
+def io_declared(node):
+    """all variables bound by a `let` anywhere below `node`"""
+    return set(v for n in io_walk(node) if n[0] == "let" for v in pat_vars(n[1]))
+
+
+def split_items(toks, lo, hi):
+    """items of the token range (a file, or the inside of an `impl` block):
+    (start of the attributes, start of the item, end); an item ends with its `{…}` group or a `;`"""
+    out = []
+    i = lo
+    while i < hi:
+        a = i
+        while i + 1 < hi and toks[i][1] == "#" and toks[i + 1][1] in ("[", "!"):
+            i += 2 if toks[i + 1][1] == "[" else 3
+            depth = 1
+            while depth:
+                if i >= hi:
+                    fail("unterminated attribute")
+                v = toks[i][1]
+                depth += (v == "[") - (v == "]")
+                i += 1
+        s = i
+        depth = 0
+        while i < hi:
+            v = toks[i][1]
+            i += 1
+            if v in ("(", "[", "{"):
+                depth += 1
+            elif v in (")", "]", "}"):
+                depth -= 1
+                if depth == 0 and v == "}":
+                    break
+            elif v == ";" and depth == 0:
+                break
+        if i > s:
+            out.append((a, s, i))
+    return out
+
+
+def io_find_methods(repo, feats, relpath, type_name):
+    """the methods of the inherent blocks `impl <type_name> { … }` of a file whose `#[cfg]`
+    attributes (of the block and of the method) hold for the default features:
+    name -> list of (tokens from `fn` on, description of the block)"""
+    src = strip_comments(open(os.path.join(repo, relpath)).read())
+    toks = tokenize(src)
+    found = {}
+    for a, s, e in split_items(toks, 0, len(toks)):
+        if not (e - s >= 4 and toks[s][1] == "impl" and toks[s + 1][1] == type_name and toks[s + 2][1] == "{"):
+            continue
+        where = "%s::<impl %s>" % (relpath, type_name)
+        pa = P(toks[a:s], feats, where)
+        if not pa.attrs():
+            continue
+        blockdesc = "`impl %s`" % type_name + ((" (" + " ".join("`%s`" % c for c in pa.last_cfg) + ")") if pa.last_cfg else "")
+        for a2, s2, e2 in split_items(toks, s + 3, e - 1):
+            j = s2
+            if toks[j][1] == "pub":
+                j += 1
+                if toks[j][1] == "(":
+                    while toks[j][1] != ")":
+                        j += 1
+                    j += 1
+            if toks[j][1] != "fn":
+                continue
+            name = toks[j + 1][1]
+            pm = P(toks[a2:s2], feats, where + "::" + name)
+            if not pm.attrs():
+                continue
+            found.setdefault(name, []).append((toks[j:e2], blockdesc))
+    return found
+
+
+def io_parse_sig(toks, where):
+    """tokens `fn name <generics>? ( &mut self , a : T , … ) -> R {`: (params [(name, type text)],
+    return type text, index of the body `{`).  The generic parameter list (trait bounds on the
+    phantom type parameter) is skipped."""
+    i = 2
+    if toks[i][1] == "<":
+        depth = 0
+        while True:
+            v = toks[i][1]
+            depth += (v == "<") - (v == ">") - 2 * (v == ">>")
+            i += 1
+            if depth == 0:
+                break
+    if toks[i][1] != "(":
+        fail("%s: cannot read the signature" % where)
+    i += 1
+    if [t[1] for t in toks[i:i + 3]] != ["&", "mut", "self"]:
+        fail("%s: the receiver is not `&mut self`" % where)
+    i += 3
+    params = []
+    while toks[i][1] != ")":
+        if toks[i][1] == ",":
+            i += 1
+            continue
+        name = toks[i][1]
+        if toks[i][0] != "id" or toks[i + 1][1] != ":":
+            fail("%s: unsupported parameter at `%s`" % (where, name))
+        i += 2
+        ty, depth = "", 0
+        while not (depth == 0 and toks[i][1] in (",", ")")):
+            v = toks[i][1]
+            depth += (v in ("<", "(", "[")) - (v in (">", ")", "]")) - 2 * (v == ">>")
+            ty += v
+            i += 1
+        params.append((name, ty))
+    i += 1
+    if toks[i][1] != "->":
+        fail("%s: no return type" % where)
+    i += 1
+    ret = ""
+    while toks[i][1] != "{":
+        if toks[i][1] == "where":
+            fail("%s: `where` clause" % where)
+        ret += toks[i][1]
+        i += 1
+    return params, ret, i
+
+
+class IoFn:
+    pass
+
+
+class CtxFn:
+    """tail position of the function: the value is a `Result`"""
+    def __init__(self, em):
+        self.em = em
+
+    def tail(self, e):
+        return self.em.mtail(e, self)
+
+    def fall(self):
+        fail(self.em.where + ": a block in tail position of the function ends without a value")
+
+    def ret(self, e):
+        if e is None:
+            fail(self.em.where + ": `return;`")
+        return self.em.mtail(e, self)
+
+    def ret_pure(self, txt):
+        return ["pure " + txt]
+
+
+class CtxValue:
+    """`{ …; e }` used as a plain value (`let x = { … };`)"""
+    def __init__(self, em):
+        self.em = em
+        self.ty = None
+
+    def tail(self, e):
+        t, self.ty = self.em.px(e)
+        return ["pure " + io_atom(t)]
+
+    def fall(self):
+        fail(self.em.where + ": a block used as a value ends without a value")
+
+    def ret(self, e):
+        fail(self.em.where + ": `return` inside a block that is used as a value")
+
+    ret_pure = ret
+
+
+class CtxBranch:
+    """branch of an `if` in statement position: yields the variables the `if` assigns"""
+    def __init__(self, em, tup):
+        self.em = em
+        self.tup = tup
+
+    def tail(self, e):
+        fail(self.em.where + ": value of an `if` branch in statement position")
+
+    def fall(self):
+        return ["pure " + self.tup]
+
+    def ret(self, e):
+        fail(self.em.where + ": `return` inside a conditional that is not the last statement of its block")
+
+    ret_pure = ret
+
+
+class CtxLoop:
+    """body of a `while`: the end of the body is the next round, `return Ok(x)` is `.inl x`"""
+    def __init__(self, em, reccall, has_ret):
+        self.em = em
+        self.reccall = reccall
+        self.has_ret = has_ret
+
+    def tail(self, e):
+        fail(self.em.where + ": `while` body with a value")
+
+    def fall(self):
+        return [self.reccall]
+
+    def ret(self, e):
+        if not (e is not None and e[0] == "call" and e[1] == ["Ok"] and len(e[2]) == 1):
+            fail(self.em.where + ": `return` inside a loop must be `return Ok(e)`")
+        t, ty = self.em.px(e[2][0])
+        self.em.check_ret(ty)
+        return ["pure (.inl %s)" % io_atom(t)]
+
+    def ret_pure(self, txt):
+        return ["pure (.inl %s)" % txt]
+
+
+class EmitIO:
+    """translates the body of one `&mut self` method to the lines of a Lean `do` block"""
+
+    def __init__(self, f, table):
+        self.f = f
+        self.where = f.where
+        self.table = table            # rust method name -> IoFn (translated before this one)
+        self.vt = {}                  # rust variable -> type class
+        self.names = {}               # rust variable -> Lean name
+        self.lean_used = {}           # Lean name -> rust variable (injectivity of the renaming)
+        self.order = []               # rust variables in order of declaration
+        self.facts = []               # (Lean text a, Lean text b): `a ≥ b` holds here (enclosing `if a > b`)
+        self.notes = []
+        self.aux = []                 # auxiliary loop definitions (doc, text)
+        self.in_loop = False
+        self.nloops = 0
+        for (rn, ln, ty) in f.params:
+            self.declare(rn, ty, lean=ln)
+
+    # ---- variables
+    def declare(self, v, ty, lean=None):
+        if v == "_":
+            return "_"
+        ln = lean or io_ident(v)
+        if ln in IO_RESERVED:
+            fail("%s: the variable `%s` would get the reserved Lean name `%s`" % (self.where, v, ln))
+        if self.lean_used.get(ln, v) != v:
+            fail("%s: the variables `%s` and `%s` would both be called `%s` in Lean"
+                 % (self.where, self.lean_used[ln], v, ln))
+        self.lean_used[ln] = v
+        self.names[v] = ln
+        self.vt[v] = ty
+        if v in self.order:
+            self.order.remove(v)
+        self.order.append(v)
+        self.forget(v)
+        return ln
+
+    def forget(self, v):
+        ln = self.names.get(v)
+        if ln:
+            self.facts = [f for f in self.facts if not (mentions(f[0], ln) or mentions(f[1], ln))]
+
+    def snapshot(self):
+        return (dict(self.vt), dict(self.names), list(self.order), list(self.facts))
+
+    def restore(self, s, keep_assigned=()):
+        """leave a block: its declarations end; facts about variables it assigned are dropped"""
+        self.vt, self.names, self.order, facts = dict(s[0]), dict(s[1]), list(s[2]), list(s[3])
+        self.facts = facts
+        for v in keep_assigned:
+            self.forget(v)
+
+    def bind_pat(self, pat, ty):
+        if pat[0] == "pvar":
+            if isinstance(ty, tuple) and pat[1] != "_":
+                fail("%s: a tuple bound to the single variable `%s`" % (self.where, pat[1]))
+            if ty == "unit" and pat[1] != "_":
+                fail("%s: `()` bound to the variable `%s`" % (self.where, pat[1]))
+            return self.declare(pat[1], ty)
+        if not (isinstance(ty, tuple) and ty[0] == "tuple" and len(ty[1]) == len(pat[1])):
+            fail("%s: tuple pattern against a value of type %r" % (self.where, ty))
+        return "(" + ", ".join(self.bind_pat(p, t) for p, t in zip(pat[1], ty[1])) + ")"
+
+    def check_ret(self, ty):
+        if ty != self.f.ret:
+            fail("%s: a value of class %r is returned, the signature says %r" % (self.where, ty, self.f.ret))
+
+    def text(self, e):
+        k = e[0]
+        if k == "path":
+            return "::".join(e[1])
+        if k == "field":
+            return self.text(e[1]) + "." + e[2]
+        return "<%s>" % k
+
+    # ---- pure expressions: (Lean text, type class)
+    def px(self, e):
+        k = e[0]
+        w = self.where
+        if k == "num":
+            return str(e[1]), "int"
+        if k == "path":
+            if len(e[1]) == 1 and e[1][0] in self.vt:
+                return self.names[e[1][0]], self.vt[e[1][0]]
+            fail("%s: `%s` is not a local variable or parameter" % (w, "::".join(e[1])))
+        if k == "tuple":
+            if not e[1]:
+                return "()", "unit"
+            xs = [self.px(x) for x in e[1]]
+            return "(" + ", ".join(x[0] for x in xs) + ")", ("tuple", [x[1] for x in xs])
+        if k == "call":
+            p = e[1]
+            if len(p) == 2 and p[1] == "new" and p[0] in IO_NEWTYPES and len(e[2]) == 1:
+                t, ty = self.px(e[2][0])
+                if ty != "int":
+                    fail("%s: %s::new(..) of something that is not a plain integer" % (w, p[0]))
+                return t, IO_NEWTYPES[p[0]]                      # newtype constructor erased
+            fail("%s: call of `%s` is outside the imperative I/O subset" % (w, "::".join(p)))
+        if k == "mcall":
+            recv, name, args = e[1], e[2], e[3]
+            if self.text(recv) == "self.piece_mgr" and name == "free_piece_list_offset_of_header" and len(args) == 1:
+                t, ty = self.px(args[0])
+                if ty != "Size":
+                    fail("%s: free_piece_list_offset_of_header(..) of something that is not a PieceSize" % w)
+                return "(freePieceListOffsetOfHeader c.freeOffsets c.sizeAry %s)" % io_atom(t), "int"
+            if name == "is_large_piece_size" and len(args) == 1 and self.text(args[0]) == "self.piece_mgr":
+                t, ty = self.px(recv)
+                if ty != "Size":
+                    fail("%s: .is_large_piece_size(..) on something that is not a PieceSize" % w)
+                return "(isLargePieceSize c.sizeAry %s)" % io_atom(t), "bool"
+            if any(n[0] == "path" and n[1] == ["self"] for n in io_walk(recv)):
+                fail("%s: `%s.%s(..)`: only `self.<method>(..)` of a translated function or bottom primitive, "
+                     "`self.buf_file.write_zero(..)`, `self.piece_mgr.free_piece_list_offset_of_header(..)` are supported, "
+                     "and a `Result` must be consumed by `?`, `let … = …?`, or the tail position"
+                     % (w, self.text(recv), name))
+            if name in ("into", "as_value") and not args:
+                t, ty = self.px(recv)
+                if ty not in ("Offset", "Size", "Length", "int"):
+                    fail("%s: .%s() on a value of class %r" % (w, name, ty))
+                return t, "int"                                  # `From` between a newtype / integer and a wider integer
+            if name == "is_zero" and not args:
+                t, ty = self.px(recv)
+                if ty not in ("Offset", "Size", "Length"):
+                    fail("%s: .is_zero() on a value of class %r" % (w, ty))
+                return "(%s == 0)" % t, "bool"
+            fail("%s: method `.%s(..)` is outside the imperative I/O subset" % (w, name))
+        if k == "not":
+            t, ty = self.px(e[1])
+            if ty != "bool":
+                fail("%s: `!` on something that is not a condition" % w)
+            return "(!%s)" % t, "bool"
+        if k == "cast":
+            t, ty = self.px(e[1])
+            if ty != "int" or e[2] not in WIDTH:
+                fail("%s: unsupported cast `as %s` of a value of class %r" % (w, e[2], ty))
+            if e[1][0] == "num" and e[1][1] < 2 ** WIDTH[e[2]]:
+                return t, "int"
+            # all integers of this subset are unsigned: `as uN` is `% 2^N` (the identity when widening)
+            return "(%s %% 2^%d)" % (t, WIDTH[e[2]]), "int"
+        if k == "bin":
+            op = e[1]
+            (a, ta), (b, tb) = self.px(e[2]), self.px(e[3])
+            if op in ("&&", "||"):
+                if ta != "bool" or tb != "bool":
+                    fail("%s: `%s` on something that is not a condition" % (w, op))
+                return "(%s %s %s)" % (a, op, b), "bool"
+            if op in ("<", ">", "<=", ">=", "==", "!="):
+                if ta != tb or ta not in ("Offset", "Size", "Length", "int"):
+                    fail("%s: comparison `%s` of values of classes %r and %r" % (w, op, ta, tb))
+                if op in ("==", "!="):
+                    return "(%s %s %s)" % (a, op, b), "bool"
+                return "(decide (%s %s %s))" % (a, {"<": "<", ">": ">", "<=": "≤", ">=": "≥"}[op], b), "bool"
+            if op == "+":
+                if (ta, tb) == ("Offset", "Size"):
+                    return "(%s + %s)" % (a, b), "Offset"        # semtype.rs `Add<PieceSize<T>> for Offset<T>` (pinned)
+                if (ta, tb) == ("int", "int"):
+                    return "(%s + %s)" % (a, b), "int"
+            if op == "-":
+                if (ta, tb) in (("Offset", "Offset"), ("int", "int")):
+                    if (a, b) not in self.facts:
+                        fail("%s: `%s - %s` without an enclosing `if %s > %s` / `>=`: truncated subtraction "
+                             "would not be exact" % (w, a, b, a, b))
+                    if ta == "Offset":
+                        # semtype.rs `Sub<Offset<T>> for Offset<T>`: `(self.val - rhs.val) as u32` (pinned)
+                        return "((%s - %s) %% 2^32)" % (a, b), "Size"
+                    return "(%s - %s)" % (a, b), "int"
+            if op in ("*", "/", "%") and (ta, tb) == ("int", "int"):
+                return "(%s %s %s)" % (a, op, b), "int"
+            fail("%s: operator `%s` on values of classes %r and %r" % (w, op, ta, tb))
+        if k == "try":
+            fail("%s: `?` inside an expression (supported: `let x = call?;`, `call?;`)" % w)
+        fail("%s: expression kind `%s` is outside the imperative I/O subset" % (w, k))
+
+    def cond(self, e):
+        t, ty = self.px(e)
+        if ty != "bool":
+            fail("%s: condition of class %r" % (self.where, ty))
+        return t
+
+    def cond_facts(self, c):
+        """`a ≥ b` facts that hold in the then-branch of `if c` (both sides plain variables)"""
+        if c[0] == "bin" and c[1] in (">", ">=", "<", "<=") and all(
+                x[0] == "path" and len(x[1]) == 1 and x[1][0] in self.vt for x in (c[2], c[3])):
+            a, b = self.names[c[2][1][0]], self.names[c[3][1][0]]
+            return [(a, b)] if c[1] in (">", ">=") else [(b, a)]
+        return []
+
+    # ---- monadic expressions (`Result`-typed): (lines of a Lean term, class of the value)
+    def is_monadic(self, e):
+        k = e[0]
+        if k == "call":
+            return e[1] == ["Ok"]
+        if k == "mcall":
+            if e[2] == "map":
+                return self.is_monadic(e[1])
+            r = self.text(e[1])
+            return (r == "self" and (e[2] in IO_PRIMS or e[2] in self.table or e[2] == "seek"
+                                     or e[2] in IO_DROPPED_CALLS)) or (r == "self.buf_file" and e[2] == "write_zero")
+        if k == "block":
+            return e[2] is not None and self.is_monadic(e[2])
+        if k == "if":
+            return self.is_monadic(e[2]) or (e[3] is not None and self.is_monadic(e[3]))
+        return False
+
+    def args(self, args, n, what):
+        if len(args) != n:
+            fail("%s: %s takes %d argument(s), %d given" % (self.where, what, n, len(args)))
+        out = ""
+        for a in args:
+            t, ty = self.px(a)
+            if ty not in ("Offset", "Size", "Length", "int"):
+                fail("%s: argument of class %r in the call of %s" % (self.where, ty, what))
+            out += " " + io_atom(t)
+        return out
+
+    def mex(self, e):
+        k = e[0]
+        w = self.where
+        if k == "call" and e[1] == ["Ok"] and len(e[2]) == 1:
+            t, ty = self.px(e[2][0])
+            return ["pure " + io_atom(t)], ty
+        if k == "mcall":
+            recv, name, args = e[1], e[2], e[3]
+            rt = self.text(recv)
+            if name == "map" and len(args) == 1 and self.is_monadic(recv):
+                lines, ty = self.mex(recv)
+                f = args[0]
+                if f[0] == "path" and len(f[1]) == 2 and f[1][1] == "new" and f[1][0] in IO_NEWTYPES:
+                    if ty != "int":
+                        fail("%s: .map(%s::new) of a value that is not a plain integer" % (w, f[1][0]))
+                    return lines, IO_NEWTYPES[f[1][0]]           # `.map(Newtype::new)`: erased
+                if f[0] == "closure" and len(f[1]) == 1 and f[1][0][0] == "pvar":
+                    snap = self.snapshot()
+                    used = dict(self.lean_used)
+                    v = self.bind_pat(f[1][0], ty)
+                    bt, bty = self.px(f[2])
+                    self.restore(snap)
+                    self.lean_used = used
+                    if bt == v:
+                        return lines, bty                        # `.map(|v| Newtype::new(v))`: erased
+                    if len(lines) != 1:
+                        fail("%s: `.map(|..| ..)` on a compound expression" % w)
+                    return ["do", "  let %s ← %s" % (v, lines[0]), "  pure %s" % io_atom(bt)], bty
+                fail("%s: unsupported argument of `.map(..)`" % w)
+            if rt == "self" and name == "seek":
+                if not (len(args) == 1 and args[0][0] == "call" and args[0][1] == ["SeekFrom", "Start"]):
+                    fail("%s: only `self.seek(SeekFrom::Start(..))` is supported" % w)
+                return ["FileM.seek" + self.args(args[0][2], 1, "SeekFrom::Start")], "int"
+            if rt == "self" and name in IO_PRIMS:
+                lean, n, ty = IO_PRIMS[name]
+                return [lean + self.args(args, n, "self.%s" % name)], ty
+            if rt == "self" and name in self.table:
+                g = self.table[name]
+                return [g.lean + (" c" if g.needs_c else "") + self.args(args, len(g.params), "self.%s" % name)], g.ret
+            if rt == "self.buf_file" and name == "write_zero":
+                return ["FileM.writeZero" + self.args(args, 1, "self.buf_file.write_zero")], "unit"
+            if rt == "self":
+                fail("%s: call of `self.%s(..)`: not one of the translated functions or bottom primitives" % (w, name))
+        fail("%s: unsupported expression where a `Result` is expected (kind `%s`)" % (w, k))
+
+    def scoped(self, stmts, tail, ctx, facts=()):
+        snap = self.snapshot()
+        self.facts = self.facts + list(facts)
+        lines = self.seq(stmts, tail, ctx)
+        self.restore(snap, io_assigned(stmts, self.where))
+        return lines
+
+    def mtail(self, e, ctx):
+        """a `Result`-typed expression in tail position of the function (the last item of a do block)"""
+        if e[0] == "if":
+            if e[3] is None:
+                fail(self.where + ": `if` without `else` as a value")
+            c = self.cond(e[1])
+            a = self.scoped(e[2][1], e[2][2], ctx, self.cond_facts(e[1]))
+            b = self.mtail(e[3], ctx) if e[3][0] == "if" else self.scoped(e[3][1], e[3][2], ctx)
+            return ["if %s then" % c] + ind(a) + ["else"] + ind(b)
+        if e[0] == "block":
+            return self.scoped(e[1], e[2], ctx)
+        lines, ty = self.mex(e)
+        self.check_ret(ty)
+        if lines[0] == "do":
+            return [x[2:] for x in lines[1:]]      # `do` block as the last item of a do block: spliced
+        return lines
+
+    # ---- statements
+    def seq(self, stmts, tail, ctx):
+        """statement list + tail -> the items of a Lean `do` block"""
+        w = self.where
+        if not stmts:
+            return ctx.tail(tail) if tail is not None else ctx.fall()
+        st, rest = stmts[0], stmts[1:]
+        k = st[0]
+        if k == "dassert":
+            self.notes.append("`%s(..)`" % st[1])
+            return self.seq(rest, tail, ctx)
+        if k == "return":
+            if rest or tail is not None:
+                fail(w + ": statements after `return`")
+            return ctx.ret(st[1])
+        if k == "let":
+            _, pat, ty, e, _mut = st
+            ann = None
+            if ty is not None:
+                ann = io_sig_type(ty, w)
+            if e[0] == "try":
+                lines, vty = self.mex(e[1])
+                if ann is not None and ann != vty:
+                    fail("%s: `let %s: %s` bound to a value of class %r" % (w, " ".join(pat_vars(pat)), ty, vty))
+                return io_attach("let %s ← " % self.bind_pat(pat, vty), lines) + self.seq(rest, tail, ctx)
+            if self.is_monadic(e):
+                # `let r = <Result>; r`: the call is the value of the function
+                if not (not rest and pat[0] == "pvar" and tail == ("path", [pat[1]])):
+                    fail("%s: a `Result` bound to `%s` without `?` and not returned at once" % (w, " ".join(pat_vars(pat))))
+                return ctx.tail(e)
+            if e[0] == "block":
+                cv = CtxValue(self)
+                lines = ["do"] + ind(self.scoped(e[1], e[2], cv))
+                if ann is not None and ann != cv.ty:
+                    fail("%s: `let %s: %s` bound to a value of class %r" % (w, " ".join(pat_vars(pat)), ty, cv.ty))
+                return io_attach("let %s ← " % self.bind_pat(pat, cv.ty), lines) + self.seq(rest, tail, ctx)
+            t, vty = self.px(e)
+            if ann is not None and ann != vty:
+                fail("%s: `let %s: %s` bound to a value of class %r" % (w, " ".join(pat_vars(pat)), ty, vty))
+            return ["let %s := %s" % (self.bind_pat(pat, vty), t)] + self.seq(rest, tail, ctx)
+        if k == "assign":
+            _, op, lhs, rhs = st
+            if not (lhs[0] == "path" and len(lhs[1]) == 1 and lhs[1][0] in self.vt):
+                fail("%s: unsupported assignment target" % w)
+            v = lhs[1][0]
+            t, vty = self.px(rhs if op == "=" else ("bin", op[:-1], lhs, rhs))
+            if vty != self.vt[v]:
+                fail("%s: `%s` of class %r is assigned a value of class %r" % (w, v, self.vt[v], vty))
+            self.forget(v)
+            return ["let %s := %s" % (self.names[v], t)] + self.seq(rest, tail, ctx)
+        if k == "while":
+            return self.while_(st, rest, tail, ctx)
+        if k == "expr":
+            e = st[1]
+            if e[0] == "try":
+                inner = e[1]
+                if (inner[0] == "mcall" and self.text(inner[1]) == "self" and inner[2] in IO_DROPPED_CALLS):
+                    self.notes.append(IO_DROPPED_CALLS[inner[2]])
+                    return self.seq(rest, tail, ctx)
+                lines, vty = self.mex(inner)
+                return io_attach("" if vty == "unit" else "let _ ← ", lines) + self.seq(rest, tail, ctx)
+            if self.is_monadic(e):
+                fail("%s: a `Result` is computed and ignored" % w)
+            if e[0] == "block":
+                # plain block `{ … }`: its statements are spliced in; its locals must not hide a
+                # variable that is used after the block
+                if e[2] is not None:
+                    fail(w + ": nested block with a value in statement position")
+                for s2 in e[1]:
+                    if s2[0] == "let":
+                        for v in pat_vars(s2[1]):
+                            if v in self.vt:
+                                fail("%s: the block-local `%s` shadows an outer variable" % (w, v))
+                return self.seq(list(e[1]) + list(rest), tail, ctx)
+            if e[0] == "if":
+                return self.if_stmt(e, rest, tail, ctx)
+            fail("%s: unsupported expression statement (kind `%s`)" % (w, e[0]))
+        fail("%s: statement `%s` is outside the imperative I/O subset" % (w, k))
+
+    def if_stmt(self, e, rest, tail, ctx):
+        w = self.where
+        c, then, els = e[1], e[2], e[3]
+        if then[2] is not None or (els is not None and (els[0] != "block" or els[2] is not None)):
+            fail(w + ": `if` in statement position whose branches have values / `else if`")
+        if then[1] and then[1][-1][0] == "return":
+            # `if c { …; return Ok(x); }  rest`  ->  if c then (… x) else (rest)
+            if els is not None:
+                fail(w + ": `if c { …return… } else { … }` in statement position")
+            cc = self.cond(c)
+            a = self.scoped(then[1], None, ctx, self.cond_facts(c))
+            b = self.seq(rest, tail, ctx)
+            return ["if %s then" % cc] + ind(a) + ["else"] + ind(b)
+        if io_contains_return(then) or (els is not None and io_contains_return(els)):
+            fail(w + ": `return` inside a conditional that is not the last statement of its block")
+        body = list(then[1]) + (list(els[1]) if els is not None else [])
+        vs = [v for v in self.order if v in io_assigned(body, w)]
+        for v in io_assigned(body, w):
+            if v not in self.vt:
+                fail("%s: assignment to the unknown variable `%s`" % (w, v))
+        for v in vs:
+            if v in io_declared(body):
+                fail("%s: `%s` is assigned and also re-declared inside the same `if`" % (w, v))
+        tup = "()" if not vs else (self.names[vs[0]] if len(vs) == 1 else "(" + ", ".join(self.names[v] for v in vs) + ")")
+        cc = self.cond(c)
+        cb = CtxBranch(self, tup)
+        a = self.scoped(then[1], None, cb, self.cond_facts(c))
+        b = self.scoped(els[1], None, cb) if els is not None else ["pure " + tup]
+        for v in vs:
+            self.forget(v)
+        lines = ["if %s then do" % cc] + ind(a) + ["else do"] + ind(b)
+        return io_attach("let %s ← " % tup if vs else "", lines) + self.seq(rest, tail, ctx)
+
+    def while_(self, st, rest, tail, ctx):
+        w = self.where
+        _, c, body = st
+        if self.in_loop:
+            fail(w + ": nested `while` loops")
+        if body[2] is not None:
+            fail(w + ": `while` body with a value")
+        asg = io_assigned(body[1], w)
+        for v in asg:
+            if v not in self.vt:
+                fail("%s: assignment to the unknown variable `%s`" % (w, v))
+            if self.vt[v] not in ("Offset", "Size", "Length", "int"):
+                fail("%s: loop variable `%s` of class %r" % (w, v, self.vt[v]))
+        vs = [v for v in self.order if v in asg]
+        if not vs:
+            fail(w + ": `while` loop that assigns no variable")
+        for v in vs:
+            if v in io_declared(body):
+                fail("%s: the loop variable `%s` is also re-declared inside the loop" % (w, v))
+        has_ret = io_contains_return(body)
+        used = set(n[1][0] for n in io_walk((c, body)) if n[0] == "path" and len(n[1]) == 1)
+        extra = [v for v in self.order if v in used and v not in vs]
+        for v in extra:
+            if self.vt[v] not in ("Offset", "Size", "Length", "int"):
+                fail("%s: variable `%s` of class %r used inside a loop" % (w, v, self.vt[v]))
+        uses_c = io_uses_c((c, body), self.table)
+        self.nloops += 1
+        name = self.f.lean + "Loop" + ("" if self.nloops == 1 else str(self.nloops))
+        state = self.names[vs[0]] if len(vs) == 1 else "(" + ", ".join(self.names[v] for v in vs) + ")"
+        sty = " × ".join("Nat" for _ in vs)
+        rty = io_lean_ty(self.f.ret)
+        if has_ret:
+            res_ty = "Sum %s %s" % (io_atom(rty) if " " in rty else rty, "(" + sty + ")" if len(vs) > 1 else sty)
+        else:
+            res_ty = sty
+        fixed = (" c" if uses_c else "") + "".join(" " + self.names[v] for v in extra)
+        # ---- the auxiliary function
+        snap = self.snapshot()
+        for v in vs:
+            self.forget(v)                 # the body sees the state after any number of rounds
+        self.in_loop = True
+        cl = CtxLoop(self, "%s%s fuel %s" % (name, fixed, state), has_ret)
+        cc = self.cond(c)
+        blines = self.scoped(body[1], None, cl, self.cond_facts(c))
+        self.in_loop = False
+        self.restore(snap, vs)
+        sig = ("(c : FileCfg) " if uses_c else "") + (("(" + " ".join(self.names[v] for v in extra) + " : Nat) ") if extra else "")
+        done = "pure (.inr %s)" % state if has_ret else "pure %s" % state
+        text = ["def %s %s: Nat → %s → M (%s)" % (name, sig, "(" + sty + ")" if len(vs) > 1 else sty, res_ty),
+                "  | 0, _ => FileM.fail",
+                "  | fuel+1, %s =>" % state,
+                "    if %s then do" % cc] + ind(blines, 6) + ["    else", "      " + done]
+        doc = ("the `while` loop of %s; state %s = the variables it assigns (`%s`); one round per unit of `fuel`, "
+               "`fuel = 0` fails; %s"
+               % (self.f.src, state, "`, `".join(vs),
+                  "`.inl x` = `return Ok(x)` inside the loop, `.inr state` = the condition became false"
+                  if has_ret else "the result is the state when the condition became false"))
+        self.aux.append((doc, "\n".join(text)))
+        # ---- the call
+        out = ["let loopFuel ← FileM.fileLen"]
+        call = "%s%s (loopFuel + 1) %s" % (name, fixed, state)
+        if not has_ret:
+            return out + ["let %s ← %s" % (state, call)] + self.seq(rest, tail, ctx)
+        return out + ["let loopRes ← " + call, "match loopRes with", "| .inl loopRet =>"] + ind(ctx.ret_pure("loopRet")) + [
+            "| .inr %s =>" % state] + ind(self.seq(rest, tail, ctx))
+
+
+def io_uses_c(node, table):
+    """does the code refer to the piece manager (the parameter `c : FileCfg`), directly or through a callee?"""
+    for n in io_walk(node):
+        if n[0] == "field" and n[2] == "piece_mgr":
+            return True
+        if n[0] == "mcall" and n[1] == ("path", ["self"]) and n[2] in table and table[n[2]].needs_c:
+            return True
+    return False
+
+
+# the functions of FileOps.lean: (rust name, file, Lean name, signature without the generic
+# parameter list, Lean names of the parameters, expected Lean signature)
+IO_FUNCS = [
+    ("seek_from_start", IO_VF, "seekFromStart", "(&mut self, offset: Offset<T>) -> Result<Offset<T>>",
+     ["off"], "(off : Nat) : M Nat"),
+    ("seek_position", IO_VF, "seekPosition", "(&mut self) -> Result<Offset<T>>", [], ": M Nat"),
+    ("write_zero_to_offset", IO_VF, "writeZeroToOffset", "(&mut self, offset: Offset<T>) -> Result<()>",
+     ["off"], "(off : Nat) : M Unit"),
+    ("read_vu64_u32", IO_VF, "readVu64U32", "(&mut self) -> Result<u32>", [], ": M Nat"),
+    ("write_vu64_u32", IO_VF, "writeVu64U32", "(&mut self, value: u32) -> Result<()>", ["value"], "(value : Nat) : M Unit"),
+    ("_read_vu64_u64", IO_VF, "readVu64U64", "(&mut self) -> Result<u64>", [], ": M Nat"),
+    ("_write_vu64_u64", IO_VF, "writeVu64U64", "(&mut self, value: u64) -> Result<()>", ["value"], "(value : Nat) : M Unit"),
+    ("read_free_piece_offset", IO_VF, "readFreePieceOffset", "(&mut self) -> Result<Offset<T>>", [], ": M Nat"),
+    ("write_free_piece_offset", IO_VF, "writeFreePieceOffset", "(&mut self, offset: Offset<T>) -> Result<()>",
+     ["off"], "(off : Nat) : M Unit"),
+    ("read_piece_size", IO_VF, "readPieceSize", "(&mut self) -> Result<PieceSize<T>>", [], ": M Nat"),
+    ("write_piece_size", IO_VF, "writePieceSize", "(&mut self, piece_size: PieceSize<T>) -> Result<()>",
+     ["size"], "(size : Nat) : M Unit"),
+    ("read_key_len", IO_VF, "readKeyLen", "(&mut self) -> Result<KeyLength>", [], ": M Nat"),
+    ("write_key_len", IO_VF, "writeKeyLen", "(&mut self, key_len: KeyLength) -> Result<()>", ["len"], "(len : Nat) : M Unit"),
+    ("write_piece_clear", IO_VF, "writePieceClear",
+     "(&mut self, offset: PieceOffset<T>, size: PieceSize<T>) -> Result<()>", ["off", "size"], "(off size : Nat) : M Unit"),
+    ("read_free_piece_offset_on_header", IO_PI, "readFreePieceOffsetOnHeader",
+     "(&mut self, piece_size: PieceSize<T>) -> Result<PieceOffset<T>>", ["pieceSize"], "(c : FileCfg) (pieceSize : Nat) : M Nat"),
+    ("write_free_piece_offset_on_header", IO_PI, "writeFreePieceOffsetOnHeader",
+     "(&mut self, piece_size: PieceSize<T>, offset: PieceOffset<T>) -> Result<()>", ["pieceSize", "off"],
+     "(c : FileCfg) (pieceSize off : Nat) : M Unit"),
+    ("read_free_piece_size_next", IO_PI, "readFreePieceSizeNext",
+     "(&mut self, curr_free_piece: PieceOffset<T>) -> Result<(PieceSize<T>, PieceOffset<T>)>", ["off"],
+     "(off : Nat) : M (Nat × Nat)"),
+    ("count_of_free_piece_list", IO_PI, "countOfFreePieceList",
+     "(&mut self, new_piece_size: PieceSize<T>) -> Result<u64>", ["pieceSize"], "(c : FileCfg) (pieceSize : Nat) : M Nat"),
+    ("push_free_piece_list", IO_PI, "pushFreePieceList",
+     "(&mut self, old_piece_offset: PieceOffset<T>, old_piece_size: PieceSize<T>) -> Result<()>", ["off", "size"],
+     "(c : FileCfg) (off size : Nat) : M Unit"),
+    ("pop_free_piece_list_large", IO_PI, "popFreePieceListLarge",
+     "(&mut self, new_piece_size: PieceSize<T>, free_1st: PieceOffset<T>) -> Result<PieceOffset<T>>",
+     ["size", "free1st"], "(c : FileCfg) (size free1st : Nat) : M Nat"),
+    ("pop_free_piece_list", IO_PI, "popFreePieceList",
+     "(&mut self, new_piece_size: PieceSize<T>) -> Result<PieceOffset<T>>", ["size"], "(c : FileCfg) (size : Nat) : M Nat"),
+]
+
+
+def io_pin_semtype(repo, feats):
+    """the operators of the erased newtypes are built into EmitIO.px; here the source of
+    semtype.rs is translated with the pure-function translator and must give exactly these terms"""
+    ab = {"self.val": ("a", "u64"), "rhs.val": ("b", "u64")}
+    ab32 = {"self.val": ("a", "u64"), "rhs.val": ("b", "u32")}
+    pins = [
+        ("sub", "std::ops::Sub<Offset<T>> for Offset<T>", "(self, rhs: Offset<T>) -> Self::Output", ab,
+         "let val := (a - b)\n  let val := (val % 2^32)\n  val"),
+        ("add", "std::ops::Add<PieceSize<T>> for Offset<T>", "(self, rhs: PieceSize<T>) -> Self::Output", ab32, "(a + b)"),
+        ("add", "std::ops::Add<Size<T>> for Offset<T>", "(self, rhs: Size<T>) -> Self::Output", ab32, "(a + b)"),
+        ("is_zero", "Offset<T>", "(&self) -> bool", {"self.val": ("a", "u64")}, "(decide (a = 0))"),
+        ("is_zero", "Size<T>", "(&self) -> bool", {"self.val": ("a", "u32")}, "(decide (a = 0))"),
+        ("is_zero", "Length<T>", "(&self) -> bool", {"self.val": ("a", "u32")}, "(decide (a = 0))"),
+        ("as_value", "Offset<T>", "(&self) -> u64", {"self.val": ("a", "u64")}, "a"),
+        ("as_value", "Size<T>", "(&self) -> u32", {"self.val": ("a", "u32")}, "a"),
+        ("from", "From<Offset<T>> for u64", "(value: Offset<T>) -> Self", {"value.val": ("a", "u64")}, "a"),
+        ("from", "From<Size<T>> for u32", "(value: Size<T>) -> Self", {"value.val": ("a", "u32")}, "a"),
+        ("from", "From<Length<T>> for u32", "(value: Length<T>) -> Self", {"value.val": ("a", "u32")}, "a"),
+    ]
+    for rust, impl, sig, subst, want in pins:
+        partial, term, _notes = translate_fn(repo, feats, IO_ST, rust, None, [], subst, {}, {}, impl=impl,
+                                             impl_generics="<T>", expect_sig=sig)
+        if partial or term != want:
+            fail("%s::<impl<T> %s>::%s translates to `%s`, the imperative I/O subset assumes `%s`"
+                 % (IO_ST, impl, rust, term.replace("\n", " "), want.replace("\n", " ")))
+    # comparisons are the derived ones: `val` is the first field, the second is PhantomData
+    src = strip_comments(open(os.path.join(repo, IO_ST)).read())
+    for ty_, w_ in (("Offset", "u64"), ("Size", "u32"), ("Length", "u32")):
+        if not re.search(r"#\[derive\(([^)]*,\s*)?PartialEq,\s*PartialOrd\b[^)]*\)\]\s*pub\s+struct\s+%s<T>\s*\{\s*val:\s*%s,"
+                         r"\s*_phantom:\s*PhantomData<fn\(\)\s*->\s*T>,\s*\}" % (ty_, w_), src):
+            fail("%s: struct %s<T> is not `#[derive(.. PartialEq, PartialOrd ..)] { val: %s, _phantom }`" % (IO_ST, ty_, w_))
+
+
+def emit_fileops(repo, feats, out):
+    io_pin_semtype(repo, feats)
+    methods = {rel: io_find_methods(repo, feats, rel, "VarFile") for rel in (IO_VF, IO_PI)}
+    fns = {}
+    for rust, rel, lean, sig, pnames, lsig in IO_FUNCS:
+        where = "%s::<impl VarFile>::%s" % (rel, rust)
+        cands = methods[rel].get(rust, [])
+        if len(cands) != 1:
+            fail("%s: %d definitions with a true `#[cfg]` (exactly one expected)" % (where, len(cands)))
+        toks, blockdesc = cands[0]
+        params, ret, ib = io_parse_sig(toks, where)
+        got = [v for _k, v in toks[2:ib]]
+        if got and got[0] == "<":
+            depth, j = 0, 0
+            while True:
+                depth += (got[j] == "<") - (got[j] == ">") - 2 * (got[j] == ">>")
+                j += 1
+                if depth == 0:
+                    break
+            got = got[j:]
+        # a trailing comma of the parameter list (rustfmt, multi-line signatures) is not significant
+        got = [v for j, v in enumerate(got) if not (v == "," and j + 1 < len(got) and got[j + 1] == ")")]
+        want = [v for _k, v in tokenize(sig)]
+        if got != want:
+            fail("%s: signature is `%s`, the translation is configured for `%s`" % (where, " ".join(got), " ".join(want)))
+        if not (ret.startswith("Result<") and ret.endswith(">")):
+            fail("%s: the return type `%s` is not `Result<..>`" % (where, ret))
+        f = IoFn()
+        f.rust, f.rel, f.lean, f.where, f.lsig = rust, rel, lean, where, lsig
+        f.src = "%s %s, `fn %s`" % (rel, blockdesc, rust)
+        f.ret = io_sig_type(ret[len("Result<"):-1], where)
+        if len(pnames) != len(params):
+            fail("%s: %d parameters, %d configured" % (where, len(params), len(pnames)))
+        f.params = [(pn, ln, io_sig_type(pt, where)) for (pn, pt), ln in zip(params, pnames)]
+        for _pn, _ln, pt in f.params:
+            if pt not in ("Offset", "Size", "Length", "int"):
+                fail("%s: parameter of class %r" % (where, pt))
+        p = P(toks[ib:], feats, where)
+        p.keep_try = True
+        f.body = p.block()
+        if p.i != len(toks) - ib:
+            fail("%s: tokens after the body" % where)
+        f.dropped = p.dropped
+        fns[rust] = f
+    # order: callees first
+    for f in fns.values():
+        f.calls = []
+        for n in io_walk(f.body):
+            if n[0] == "mcall" and n[1] == ("path", ["self"]) and n[2] in fns and n[2] not in f.calls:
+                f.calls.append(n[2])
+    done, order = {}, []
+
+    def visit(name, stack):
+        if name in done:
+            return
+        if name in stack:
+            fail("%s: recursion (%s)" % (fns[name].where, " -> ".join(stack + [name])))
+        for g in fns[name].calls:
+            visit(g, stack + [name])
+        f = fns[name]
+        f.needs_c = io_uses_c(f.body, done)
+        em = EmitIO(f, done)
+        body = em.seq(f.body[1], f.body[2], CtxFn(em))
+        f.aux = em.aux
+        f.notes = sorted(set(em.notes)) + f.dropped
+        # the derived Lean signature must be the configured one
+        derived = re.sub(r"\s+", " ", ("(c : FileCfg) " if f.needs_c else "") + (
+            "(" + " ".join(ln for _pn, ln, _t in f.params) + " : Nat) " if f.params else "") + ": M " + io_atom(io_lean_ty(f.ret)))
+        if derived != f.lsig:
+            fail("%s: the Lean signature is `%s`, expected `%s`" % (f.where, derived, f.lsig))
+        f.text = "def %s %s := do\n%s" % (f.lean, derived, "\n".join(ind(body)))
+        done[name] = f
+        order.append(f)
+
+    for rust, *_ in IO_FUNCS:
+        visit(rust, [])
+    if sorted(f.rust for f in order) != sorted(x[0] for x in IO_FUNCS):
+        fail("FileOps: the set of emitted functions is not the configured one")
+    with open(os.path.join(out, "FileOps.lean"), "w") as fh:
+        fh.write("import Abyss.FileM\nimport Abyss.Gen.Funcs\nimport Abyss.RecFile\n")
+        fh.write(IO_HEADER)
+        fh.write("set_option linter.unusedVariables false\n\nnamespace Abyss.Gen\nopen Abyss.FileM (M)\n\n")
+        for f in order:
+            for doc, text in f.aux:
+                fh.write("/-- %s -/\n%s\n\n" % (doc, text))
+            fh.write("/-- %s.%s -/\n%s\n\n" % (f.src, (" Dropped: " + "; ".join(f.notes) + ".") if f.notes else "", f.text))
+        fh.write("end Abyss.Gen\n")
+    return len(order)
+
+
+IO_HEADER = """/-! GENERATED by tools/rs2lean.py from /repo — do not edit.
+Byte-level I/O of the record-file allocator: the `&mut self` methods of `VarFile`
+(src/filedb/inner/vfile.rs, src/filedb/inner/piece.rs) as functions in `Abyss.FileM.M`.
+
+* `Result<T>` with `?` is the failure of the monad; `Ok(e)` is `pure e`; `.map(|v| e)` is bind + pure.
+* `self.<method>(..)` is the translated function of that name or a bottom primitive of `Abyss.FileM`
+  (`read_u64_le`, `write_u64_le`, `read_and_decode_vu64`, `encode_and_write_vu64`,
+  `buf_file.write_zero`, `seek(SeekFrom::Start(_))`, `stream_position`); `self.piece_mgr` is `c : FileCfg`
+  (`free_list_offset` = `c.freeOffsets`, `size_ary` = `c.sizeAry`).
+* the unit-of-measure newtypes of semtype.rs (`Offset<T>`, `PieceOffset<T>`, `PieceSize<T>`, `KeyLength`)
+  are erased to `Nat`: `new`, `into`, `as_value` are the identity, `is_zero` is `== 0`, comparisons are
+  those of the numbers, `Offset + PieceSize` is `+`, `Offset - Offset` is `(a - b) % 2^32`
+  (`(self.val - rhs.val) as u32`; only accepted under a guard `if a > b` that makes `a - b` exact).
+  These readings are checked against semtype.rs on every run.  `n as uN` is `% 2^N`.
+  `+` and `*` are those of `Nat` (overflow of the Rust integer type is outside the model, as in Funcs.lean).
+* `debug_assert!`, statements under a false `#[cfg(..)]` (`debug_assertions` is false) and the read-ahead
+  hint `prepare` are left out; each doc comment lists what was dropped from that function.
+* a `while` loop is an auxiliary function `<name>Loop`, structurally recursive on `fuel`, over the tuple
+  of variables the loop assigns; `fuel = 0` is `FileM.fail`; the caller passes `(← FileM.fileLen) + 1`
+  (a free list cannot have more slots than the file has bytes).
+-/
+"""
+
+
+STAGE = "funcs"
 
 
 def main():
@@ -1530,7 +2620,12 @@ def main():
             fh.write("/-- %s%s -/\n" % (src, ("; " + ", ".join(sorted(set(notes)))) if notes else ""))
             fh.write("def %s %s :=\n  %s\n\n" % (lean, sig, term))
         fh.write("end Abyss.Gen\n")
-    print("rs2lean: wrote %d constants, %d functions (features: %s)" % (len(C), len(F), ",".join(sorted(feats))))
+    # ---------------- byte-level I/O of the allocator (monadic)
+    global STAGE
+    STAGE = "fileops"
+    n_io = emit_fileops(repo, feats, out)
+    print("rs2lean: wrote %d constants, %d functions, %d file operations (features: %s)"
+          % (len(C), len(F), n_io, ",".join(sorted(feats))))
 
 
 if __name__ == "__main__":
@@ -1540,9 +2635,11 @@ if __name__ == "__main__":
         print("rs2lean: UNSUPPORTED: %s" % e, file=sys.stderr)
         # nothing was emitted; a Funcs.lean left over from an earlier run must not be mistaken for
         # the translation of this source: replace it by a file that fails to build with the reason
+        # (a failure in the FileOps stage leaves the Consts.lean / Funcs.lean just written in place)
         if len(sys.argv) > 2 and os.path.isdir(sys.argv[2]):
             msg = ("rs2lean: UNSUPPORTED: %s" % e).replace("\\", "\\\\").replace('"', '\\"').replace("\n", " ")
-            with open(os.path.join(sys.argv[2], "Funcs.lean"), "w") as fh:
-                fh.write("/-! GENERATED by tools/rs2lean.py — the translation FAILED, nothing was emitted. -/\n")
-                fh.write('#eval (throw (IO.userError "%s") : IO Unit)\n' % msg)
+            for name in (["Funcs.lean"] if STAGE == "funcs" else []) + ["FileOps.lean"]:
+                with open(os.path.join(sys.argv[2], name), "w") as fh:
+                    fh.write("/-! GENERATED by tools/rs2lean.py — the translation FAILED, nothing was emitted. -/\n")
+                    fh.write('#eval (throw (IO.userError "%s") : IO Unit)\n' % msg)
         sys.exit(2)
